@@ -107,12 +107,16 @@ def run_case(case):
     tq = 17.5
     n_eval = 0
     cp = np.cos(p[7] * D2R)
-    for lever_k, rates_k, wa, kind in itertools.product(LEVERS, RATES, (True, False),
+    # ONE error-model object per altitude mode serves every measurement of the case (as in a filter run with
+    # several position / velocity sources); lever arms come first, the arm-less sources after them
+    ems = {True: error_model.InsErrorModel(True), False: error_model.InsErrorModel(False)}
+    lever_order = [k for k in LEVERS if LEVERS[k] is not None] + [k for k in LEVERS if LEVERS[k] is None]
+    for lever_k, rates_k, wa, kind in itertools.product(lever_order, RATES, (True, False),
                                                         ('Position', 'NedVelocity', 'BodyVelocity')):
         lever, rates = LEVERS[lever_k], RATES[rates_k]
         if kind == 'BodyVelocity' and lever_k != 'none':
             continue
-        em = error_model.InsErrorModel(wa)
+        em = ems[wa]
         n = em.n_states
         idx = list(range(9)) if wa else [0, 1, 3, 4, 6, 7, 8]
         pva = pd.Series(p, index=COLS, name=tq)
@@ -175,8 +179,22 @@ def run_case(case):
                   % (kind, off, zo.tolist(), exp.tolist()))
         # (iv) absent time / other row
         mo = make(true_measured(kind, p, lever, rates), times=(tq - 1.0, tq, tq + 2.0))
-        if mo.compute_matrices(tq + 0.5, pva, em) is not None:
-            v('c06-not-none-at-absent-time', '%s returned data at a time absent from its table' % kind)
+        for t_abs in (tq + 0.5, tq - 2.0 ** -20, tq + 2.0 ** -20, np.nextafter(tq, 0.0), np.nextafter(tq, 1e9),
+                      tq - 1.0 - 2.0 ** -20):
+            if mo.compute_matrices(t_abs, pva, em) is not None:
+                v('c06-not-none-at-absent-time', '%s returned data at t=%r, which is absent from its table %s'
+                  % (kind, t_abs, [tq - 1.0, tq, tq + 2.0]))
+                break
+        # large time stamps (seconds of week): a microsecond beside a sample is still absent
+        big = 345600.25
+        mob = make(true_measured(kind, p, lever, rates), times=(big - 1.0, big, big + 2.0))
+        if mob.compute_matrices(big, pva, em) is None:
+            v('c06-none-at-present-time', '%s returned None at a present (large) time' % kind)
+        for t_abs in (big - 2.0 ** -20, big + 2.0 ** -20, big - 0.01, np.nextafter(big, 0.0)):
+            if mob.compute_matrices(t_abs, pva, em) is not None:
+                v('c06-not-none-at-absent-time', '%s returned data at t=%r, absent from its table %s'
+                  % (kind, t_abs, [big - 1.0, big, big + 2.0]))
+                break
         r_other = mo.compute_matrices(tq + 2.0, pva, em)
         if r_other is None or np.abs(np.asarray(r_other[0], dtype=float) - z0).max() > 1e-9:
             v('c06-other-row', '%s: querying another present row gives a different answer' % kind)
